@@ -252,3 +252,14 @@ ADDENDA7 = {
 }
 for _k, _t in ADDENDA7.items():
     CLAIMS[_k]["text"] = CLAIMS[_k]["text"] + " " + _t
+
+ADDENDA8 = {
+ "C01": "Also: the OpenFile helper takes the fs.Open shortcut only for O_RDONLY.",
+ "C05": "Also: no helper falls back to io/fs.ReadDir.",
+ "C12": "Also: the default destination's by-name methods save no record looked up under another name; destination files are created truncating; mem's listing is on element boundaries.",
+ "C13": "Also: destination files are created with O_TRUNC.",
+ "C16": "Also: in package os only Lstat asks os.Lstat; no File helper but SeekFile moves the position.",
+ "C17": "Also: Close of the os-backed handle always closes the descriptor.",
+}
+for _k, _t in ADDENDA8.items():
+    CLAIMS[_k]["text"] = CLAIMS[_k]["text"] + " " + _t
